@@ -31,6 +31,17 @@ class Undef:
         return "undef"
 
 
+class PtrDiff(Undef):
+    """difference of pointers into different objects (only meaningful when added back to `b`)"""
+
+    def __init__(self, a, b):
+        self.a = a
+        self.b = b
+
+    def __repr__(self):
+        return "PtrDiff(%r,%r)" % (self.a, self.b)
+
+
 UNDEF = Undef()
 
 
@@ -489,6 +500,12 @@ def int_cmp(pred, a, b, bits):
 
 
 def int_cast(op, v, fb, tb):
+    if isinstance(v, Undef):
+        return v
+    if isinstance(v, Ptr):
+        if op == "trunc":
+            raise EngineError("truncation of a pointer value")
+        return v
     if not is_sym(v):
         if op == "trunc":
             return v & mask(tb)
